@@ -1826,4 +1826,187 @@ theorem mean_spacing' (c s : Rat) (M : Nat) (hM : 1 ≤ M) : (gdist c s M - gdis
   have hden : (((M + 1 : Nat) : Rat)) - 1 = (M : Rat) := by push_cast; ring
   rw [hden] at this; exact this
 
+/-! ## the refined estimate: exact on exact stacks, and following the true plane numbers on rounded / jittered stacks -/
+
+/-- **the estimate is exact on exact stacks**: distances `c + k j · s` (plane numbers `k` strictly increasing from 0, two
+neighbouring planes present, `s` not zero within `1e-5`): the smallest gap is `s`, every distance above the lowest plane is a
+whole multiple of it, and the refinement leaves it unchanged. -/
+theorem estimateSpacing_exact (c : Rat) {s : Rat} (hs : 0 < s) (hz : isClose s 0 npRtol eqTol = false) (k : Nat → Nat)
+    (hk : StrictMono k) (hk0 : k 0 = 0) {M : Nat} (hadj : ∃ j, j < M ∧ k (j + 1) = k j + 1) :
+    estimateSpacing ((List.range (M + 1)).map fun j => gdist c s (k j)) = .ok (some s) := by
+  let g : Nat → Rat := fun j => gdist c s (k j)
+  obtain ⟨j, hj, hkj⟩ := hadj
+  have hm : minList (diffs ((List.range (M + 1)).map g)) = some s := by
+    apply minList_eq
+    · have := diffs_mem g (M + 1) j (by omega)
+      have e : g (j + 1) - g j = s := by
+        simp only [g, gdist, hkj]; push_cast; ring
+      rw [e] at this; exact this
+    · intro x hx
+      rw [List.range_eq_range'] at hx
+      obtain ⟨i, _, _, rfl⟩ := diffs_elem g _ _ x hx
+      have h1 : k i + 1 ≤ k (i + 1) := hk (Nat.lt_succ_self i)
+      have h2 : ((k i : Nat) : Rat) + 1 ≤ ((k (i + 1) : Nat) : Rat) := by exact_mod_cast h1
+      simp only [g, gdist]
+      nlinarith
+  show estimateSpacing ((List.range (M + 1)).map g) = .ok (some s)
+  rw [estimateSpacing_of_min hm hz]
+  congr 2
+  apply refineSpacing_exact hs
+  intro D hD
+  rw [List.mem_map] at hD
+  obtain ⟨x, hx, rfl⟩ := hD
+  have hx' : x ∈ (List.range (M + 1)).map g := List.mem_of_mem_tail hx
+  rw [List.mem_map] at hx'
+  obtain ⟨i, _, rfl⟩ := hx'
+  refine ⟨k i, ?_⟩
+  have h0' : ((List.range (M + 1)).map g).headD 0 = g 0 := by
+    rw [List.range_succ_eq_map]; rfl
+  rw [h0']
+  simp only [g, gdist, hk0]; push_cast; ring
+
+/-- a number strictly within one half of a whole number rounds to it -/
+theorem roundHalfEven_eq_of_near {x : Rat} {n : Int} (h1 : (n : Rat) - 1 / 2 < x) (h2 : x < (n : Rat) + 1 / 2) :
+    roundHalfEven x = n := by
+  obtain ⟨a, b⟩ := roundHalfEven_near x
+  have h3 : ((roundHalfEven x : Int) : Rat) < (n : Rat) + 1 := by linarith
+  have h4 : (n : Rat) < ((roundHalfEven x : Int) : Rat) + 1 := by linarith
+  have h3' : roundHalfEven x < n + 1 := by exact_mod_cast h3
+  have h4' : n < roundHalfEven x + 1 := by exact_mod_cast h4
+  omega
+
+/-- one step of the refinement that hits the plane number `n > 0` of the plane at distance `D`: the estimate becomes `D / n` -/
+theorem refineStep_hit {s D : Rat} {n : Nat} (hn : 0 < n) (hs : 0 < s) (h : |D - (n : Rat) * s| < s / 2) :
+    (if 0 < roundHalfEven (D / s) then D / ((roundHalfEven (D / s) : Int) : Rat) else s) = D / (n : Rat) := by
+  have hr : roundHalfEven (D / s) = (n : Int) := by
+    apply roundHalfEven_eq_of_near
+    · have := (abs_lt.mp h).1
+      rw [lt_div_iff₀ hs]; push_cast; nlinarith
+    · have := (abs_lt.mp h).2
+      rw [div_lt_iff₀ hs]; push_cast; nlinarith
+  rw [hr]
+  have : (0 : Int) < (n : Int) := by exact_mod_cast hn
+  rw [if_pos this]
+  push_cast; rfl
+
+/-- the refinement loop follows the true plane numbers as long as each step's rounding hits: start anywhere with an estimate `s₀`
+that puts the first plane right, then every plane `j+1` is put right by the estimate `D j / k j` fitted to plane `j`. -/
+theorem refineSpacing_chain (D : Nat → Rat) (k : Nat → Nat) :
+    ∀ (n a : Nat) (s0 : Rat), 0 < s0 → (∀ j, a ≤ j → j ≤ a + n → 0 < k j ∧ 0 < D j) →
+      |D a - (k a : Rat) * s0| < s0 / 2 →
+      (∀ j, a ≤ j → j < a + n → |D (j + 1) * (k j : Rat) - (k (j + 1) : Rat) * D j| < D j / 2) →
+      refineSpacing s0 ((List.range' a (n + 1)).map D) = D (a + n) / (k (a + n) : Rat) := by
+  intro n
+  induction n with
+  | zero =>
+    intro a s0 hs0 hpos h1 _
+    rw [show (List.range' a (0 + 1)).map D = [D a] from rfl, refineSpacing_cons, refineSpacing_nil]
+    exact refineStep_hit (hpos a (le_refl _) (by omega)).1 hs0 h1
+  | succ n ih =>
+    intro a s0 hs0 hpos h1 hstep
+    rw [List.range'_succ, List.map_cons, refineSpacing_cons, refineStep_hit (hpos a (le_refl _) (by omega)).1 hs0 h1]
+    have hka := (hpos a (le_refl _) (by omega)).1
+    have hDa := (hpos a (le_refl _) (by omega)).2
+    have hkaQ : (0 : Rat) < (k a : Rat) := by exact_mod_cast hka
+    have hs1 : 0 < D a / (k a : Rat) := div_pos hDa hkaQ
+    have := ih (a + 1) (D a / (k a : Rat)) hs1 (fun j h1 h2 => hpos j (by omega) (by omega)) ?_
+      (fun j h1 h2 => hstep j (by omega) (by omega))
+    · rw [this, show a + 1 + n = a + (n + 1) by omega]
+    · have hst := hstep a (le_refl _) (by omega)
+      have e : D (a + 1) - (k (a + 1) : Rat) * (D a / (k a : Rat))
+          = (D (a + 1) * (k a : Rat) - (k (a + 1) : Rat) * D a) / (k a : Rat) := by
+        field_simp
+      rw [e, abs_div, abs_of_pos hkaQ, div_lt_iff₀ hkaQ]
+      calc |D (a + 1) * (k a : Rat) - (k (a + 1) : Rat) * D a| < D a / 2 := hst
+        _ = D a / (k a : Rat) / 2 * (k a : Rat) := by field_simp
+
+theorem minList_ne_none {l : List Rat} {x : Rat} (h : x ∈ l) : ∃ m, minList l = some m := by
+  cases l with
+  | nil => cases h
+  | cons a as => exact ⟨_, rfl⟩
+
+/-- products of a bounded error with a plane number -/
+theorem abs_mul_nat_le {e ε : Rat} (h : |e| ≤ ε) (n : Nat) : |e * (n : Rat)| ≤ ε * (n : Rat) := by
+  rw [abs_mul, abs_of_nonneg (Nat.cast_nonneg n : (0 : Rat) ≤ (n : Rat))]
+  exact mul_le_mul_of_nonneg_right h (Nat.cast_nonneg n)
+
+/-- the refined estimate of a stack within `ε` of `g 0 + k j · s` whose plane numbers grow moderately is the spacing fitted to
+the extent, `(g M − g 0) / k M` -/
+theorem refineSpacing_jittered (g : Nat → Rat) (hg : StrictMono g) {M : Nat} (hM : 1 ≤ M) {s ε : Rat} (hε : 0 ≤ ε)
+    (k : Nat → Nat) (hk : StrictMono k) (hk0 : k 0 = 0) (hadj : ∃ a, a < M ∧ k (a + 1) = k a + 1)
+    (hnear : ∀ j, j ≤ M → |g j - g 0 - (k j : Rat) * s| ≤ ε)
+    (hfirst : 2 * ε * (1 + 2 * (k 1 : Rat)) < s - 2 * ε)
+    (hgrow : ∀ j, 1 ≤ j → j < M → 2 * ε * ((k j : Rat) + (k (j + 1) : Rat)) < (k j : Rat) * s - ε)
+    {m : Rat} (hmin : minList (diffs ((List.range (M + 1)).map g)) = some m) :
+    s - 2 * ε ≤ m ∧ m ≤ s + 2 * ε ∧
+    refineSpacing m ((List.range M).map fun j => g (j + 1) - g 0) = (g M - g 0) / (k M : Rat) := by
+  have hk1 : 1 ≤ k 1 := by have := hk (Nat.zero_lt_one); omega
+  have hk1Q : (1 : Rat) ≤ (k 1 : Rat) := by exact_mod_cast hk1
+  have hs : 2 * ε < s := by nlinarith
+  have hs0 : 0 < s := by linarith
+  -- bounds of the smallest gap
+  obtain ⟨a, haM, hka⟩ := hadj
+  have hle := minList_le hmin _ (diffs_mem g (M + 1) a (by omega))
+  have hmem := minList_mem hmin
+  rw [List.range_eq_range'] at hmem
+  obtain ⟨b, _, hb, hmb⟩ := diffs_elem g (M + 1) 0 m hmem
+  have Ea := abs_le.mp (hnear a (by omega))
+  have Ea1 := abs_le.mp (hnear (a + 1) (by omega))
+  have Eb := abs_le.mp (hnear b (by omega))
+  have Eb1 := abs_le.mp (hnear (b + 1) (by omega))
+  have hkaQ : (k (a + 1) : Rat) = (k a : Rat) + 1 := by rw [hka]; push_cast; ring
+  have hkb : k b + 1 ≤ k (b + 1) := by have := hk (Nat.lt_succ_self b); simp only [Nat.succ_eq_add_one] at this; omega
+  have hkbQ : (k b : Rat) + 1 ≤ (k (b + 1) : Rat) := by exact_mod_cast hkb
+  have hm_hi : m ≤ s + 2 * ε := by
+    have : g (a + 1) - g a = s + ((g (a + 1) - g 0 - (k (a + 1) : Rat) * s) - (g a - g 0 - (k a : Rat) * s)) := by
+      rw [hkaQ]; ring
+    linarith
+  have hm_lo : s - 2 * ε ≤ m := by
+    have : g (b + 1) - g b = ((k (b + 1) : Rat) - (k b : Rat)) * s
+        + ((g (b + 1) - g 0 - (k (b + 1) : Rat) * s) - (g b - g 0 - (k b : Rat) * s)) := by ring
+    have h2 : s ≤ ((k (b + 1) : Rat) - (k b : Rat)) * s := by nlinarith
+    linarith
+  have hm0 : 0 < m := by linarith
+  refine ⟨hm_lo, hm_hi, ?_⟩
+  -- the chain
+  have hpos : ∀ j, 1 ≤ j → j ≤ 1 + (M - 1) → 0 < k j ∧ 0 < (fun j => g j - g 0) j := by
+    intro j h1 _
+    have h0j : 0 < j := by omega
+    constructor
+    · have := hk h0j; omega
+    · have := hg h0j; simp only; linarith
+  have hlist : ((List.range M).map fun j => g (j + 1) - g 0) = (List.range' 1 (M - 1 + 1)).map (fun j => g j - g 0) := by
+    rw [show M - 1 + 1 = M by omega, List.range'_eq_map_range, List.map_map]
+    apply List.map_congr_left
+    intro j _
+    simp only [Function.comp, Nat.add_comm 1 j]
+  rw [hlist, refineSpacing_chain (fun j => g j - g 0) k (M - 1) 1 m hm0 hpos, show 1 + (M - 1) = M by omega]
+  · -- first step
+    have E1 := hnear 1 (by omega)
+    have hδ : |m - s| ≤ 2 * ε := abs_le.mpr ⟨by linarith, by linarith⟩
+    have h1 := abs_mul_nat_le hδ (k 1)
+    have e : g 1 - g 0 - (k 1 : Rat) * m = (g 1 - g 0 - (k 1 : Rat) * s) - (m - s) * (k 1 : Rat) := by ring
+    show |g 1 - g 0 - (k 1 : Rat) * m| < m / 2
+    rw [e]
+    calc |(g 1 - g 0 - (k 1 : Rat) * s) - (m - s) * (k 1 : Rat)|
+        ≤ |g 1 - g 0 - (k 1 : Rat) * s| + |(m - s) * (k 1 : Rat)| := abs_sub _ _
+      _ ≤ ε + 2 * ε * (k 1 : Rat) := add_le_add E1 h1
+      _ < m / 2 := by linarith
+  · -- later steps
+    intro j h1 h2
+    have hjM : j < M := by omega
+    have Ej := hnear j (by omega)
+    have Ej1 := hnear (j + 1) (by omega)
+    have a1 := abs_mul_nat_le Ej1 (k j)
+    have a2 := abs_mul_nat_le Ej (k (j + 1))
+    have e : (g (j + 1) - g 0) * (k j : Rat) - (k (j + 1) : Rat) * (g j - g 0)
+        = (g (j + 1) - g 0 - (k (j + 1) : Rat) * s) * (k j : Rat) - (g j - g 0 - (k j : Rat) * s) * (k (j + 1) : Rat) := by ring
+    show |(g (j + 1) - g 0) * (k j : Rat) - (k (j + 1) : Rat) * (g j - g 0)| < (g j - g 0) / 2
+    rw [e]
+    have hDj : (k j : Rat) * s - ε ≤ g j - g 0 := by have := (abs_le.mp Ej).1; linarith
+    calc |(g (j + 1) - g 0 - (k (j + 1) : Rat) * s) * (k j : Rat) - (g j - g 0 - (k j : Rat) * s) * (k (j + 1) : Rat)|
+        ≤ |(g (j + 1) - g 0 - (k (j + 1) : Rat) * s) * (k j : Rat)| + |(g j - g 0 - (k j : Rat) * s) * (k (j + 1) : Rat)| := abs_sub _ _
+      _ ≤ ε * (k j : Rat) + ε * (k (j + 1) : Rat) := add_le_add a1 a2
+      _ < (g j - g 0) / 2 := by have := hgrow j h1 hjM; linarith
+
 end HdVerif.Stack
